@@ -25,7 +25,7 @@ PROPS = {
         level_note='Assumes System.execute user-code contract, frequency >= 1, engine semantics of Python int %, z3/cvc5. '
                    'bool arguments to Model.execute are left open (property says non-integer).',
         functions=['Core.SystemManager.__init__', 'Core.SystemManager.execute_systems', 'Core.System.__init__',
-                   'Core.Model.__init__', 'Core.Model.execute', 'Core.Model.execute#nonint', 'Core.Model.__getattr__'],
+                   'Core.SystemManager.add_system', 'Core.SystemManager.remove_system', 'Core.Model.__init__', 'Core.Model.execute', 'Core.Model.execute#nonint', 'Core.Model.__getattr__'],
         assumptions=SCHED_ASSUME + ['frequency >= 1 for every registered system (property text)']),
     'C06': dict(
         level_text='Deductive proof: a ghost monitor asserts the model is running at every sys.execute() call site; '
@@ -34,7 +34,8 @@ PROPS = {
                    '(writer scan: only Model.__init__ and complete write _status).',
         level_note='Assumes System.execute only moves status RUNNING->COMPLETE; client discipline; engine semantics.',
         functions=['Core.Model.__init__', 'Core.Model.complete', 'Core.Model.is_running', 'Core.Model.__bool__',
-                   'Core.SystemManager.execute_systems'],
+                   'Core.SystemManager.execute_systems', 'Core.Model.execute', 'Core.SystemManager.add_system',
+                   'Core.SystemManager.remove_system'],
         assumptions=SCHED_ASSUME),
 }
 
